@@ -2535,3 +2535,140 @@ def rule_break_magnitude(col, facts):
             total += 1
     col.check(R, "buffer_size_const:break-magnitude", partial == 0 and total >= 1,
               "the magnitude of the negative exponent break is taken with i32::abs (%d site(s); total alternatives: %d): negative_exponent_break(i32::MIN) is a valid option, panics in debug builds and gives a 64-byte bound in release (1e-70 then needs 72 bytes)" % (partial, total), where)
+
+
+# =================================================================================================
+# Round-4 block: rules added after the fourth seeding round (DESIGN §8)
+# =================================================================================================
+def _promoted_variant(f, e, adt_suffix):
+    """For `eq/ne(ref(X), ref(promoted))`: (variant name of the promoted enum constant, "eq"|"ne")."""
+    e = strip_casts(e)
+    if e[0] != "call" or last_seg(e[1]) not in ("eq", "ne") or len(e[2]) != 2:
+        return None
+
+    def peel(x):
+        x = strip_casts(x)
+        while isinstance(x, tuple) and x and x[0] in ("ref", "cast"):
+            x = strip_casts(x[1])
+        if isinstance(x, tuple) and x and x[0] == "proj" and x[2] == ("*",):
+            return peel(x[1])
+        return x
+    pr = [peel(x) for x in e[2] if peel(x)[0] == "kprom"]
+    if len(pr) != 1:
+        return None
+    body = f.promoted[pr[0][1]]
+    for b in body["blocks"]:
+        for st in b["s"]:
+            if st[0] == "=" and st[2][0] == "agg" and st[2][1][0] == "adt" and st[2][1][1].endswith(adt_suffix):
+                return (st[2][1][3], last_seg(e[1]))
+    return None
+
+
+def rule_lemire_precision_and_window(col, facts):
+    """Eisel-Lemire (compute_float), two boundary facts:
+    GRD-precision - the first 64x64 product is trusted unless its low `64 - precision` bits are all ones; the
+      published algorithm needs precision >= mantissa bits + 3 (one bit for rounding, one for the leading-zero
+      adjustment, one for the half-way test).  A smaller precision enlarges the mask and skips second products
+      that are needed (`9e-265` is one ulp low).
+    CFG-window - the power table covers exactly [SMALLEST_POWER_OF_TEN, LARGEST_POWER_OF_TEN]; the zero / infinity
+      short-circuits must be strict (`<` / `>`): with `>=` the largest decade (`1e308`, f32 `3e38`) is infinity."""
+    if facts.config.startswith("compact"):
+        return
+    f = facts.fn(PF + "lemire::compute_float")
+    n = 0
+    for bb, c, a, d, t in f.calls():
+        if last_seg(callee_name(c)) != "compute_product_approx":
+            continue
+        n += 1
+        e = strip_casts(op_expr(f, a[2]))
+        k = None
+        if e[0] == "bin" and e[1] == "Add":
+            l, r = strip_casts(e[2]), strip_casts(e[3])
+            if l[0] == "kc" and last_seg(l[1]) == "MANTISSA_SIZE" and r[0] == "k":
+                k = r[1]
+            if r[0] == "kc" and last_seg(r[1]) == "MANTISSA_SIZE" and l[0] == "k":
+                k = l[1]
+        col.check("GRD-precision", "lemire::compute_float:product-precision", k is not None and k >= 3,
+                  "compute_product_approx is asked for `%s` bits: fewer than MANTISSA_SIZE + 3 enlarges the all-ones mask, so a needed second multiplication is skipped and the result accepted one ulp low" % show(e)[:60], f.loc(f.blocks[bb]["ts"]))
+    col.check("GRD-precision", "lemire::compute_float:product-call", n == 1, "expected one compute_product_approx call, found %d" % n, f.loc())
+    # window: collect the comparisons of q with the two limits that lead to a literal return
+    seen = {}
+    for i, b in enumerate(f.blocks):
+        if not f.live(i) or b["t"]["k"] != "switch":
+            continue
+        e = strip_casts(op_expr(f, b["t"]["d"]))
+        if e[0] == "bin" and e[1] in ("Lt", "Le", "Gt", "Ge"):
+            s = show(e)
+            for lim in ("SMALLEST_POWER_OF_TEN", "LARGEST_POWER_OF_TEN"):
+                if lim in s and strip_casts(e[2])[0] in ("arg", "var"):
+                    seen[lim] = e[1]
+    col.check("CFG-window", "lemire::compute_float:zero-below-smallest", seen.get("SMALLEST_POWER_OF_TEN") == "Lt",
+              "q is compared with SMALLEST_POWER_OF_TEN using %s (expected `<`): the smallest decade of the table would be flushed to zero" % seen.get("SMALLEST_POWER_OF_TEN"), f.loc())
+    col.check("CFG-window", "lemire::compute_float:inf-above-largest", seen.get("LARGEST_POWER_OF_TEN") == "Gt",
+              "q is compared with LARGEST_POWER_OF_TEN using %s (expected `>`): the largest decade the table covers (`1e308`, f32 `3e38`) would be returned as infinity" % seen.get("LARGEST_POWER_OF_TEN"), f.loc())
+
+
+def rule_bellerophon_underflow_order(col, facts):
+    """ORD-underflow (Bellerophon): a denormal shift of more than 65 is zero whatever the error; a shift of
+    exactly 65 is zero only if the estimate is accurate - with an error bound that crosses half the smallest
+    subnormal the slow path has to decide.  So a zero return guarded by a comparison that admits 65 must be
+    dominated by a successful error_is_accurate."""
+    if not (facts.config.startswith("compact") or "radix" in facts.config):
+        return
+    R = "ORD-underflow"
+    f = facts.fn(PF + "bellerophon::bellerophon")
+    acc = [bb for bb, c, a, d, t in f.calls() if last_seg(callee_name(c)) == "error_is_accurate"]
+    col.check(R, "bellerophon:error_is_accurate", len(acc) >= 1, "no call of error_is_accurate", f.loc())
+    n = bad = 0
+    where = f.loc()
+    for i, b in enumerate(f.blocks):
+        if not f.live(i) or b["t"]["k"] != "switch":
+            continue
+        e = strip_casts(op_expr(f, b["t"]["d"]))
+        if not (e[0] == "bin" and e[1] in ("Gt", "Ge", "Eq") and strip_casts(e[3]) == ("k", 65)):
+            continue
+        n += 1
+        admits65 = e[1] in ("Ge", "Eq")
+        # (the accuracy test itself is skipped when lossy, so it does not dominate what follows it: what must not
+        #  happen is that the zero return for 65 comes *before* it, i.e. dominates it)
+        if admits65 and any(f.dominates(i, a_) for a_ in acc):
+            bad += 1
+            where = f.loc(b["ts"])
+    col.check(R, "bellerophon:shift-65-after-accuracy", n >= 1 and bad == 0,
+              "%d of %d underflow tests return zero for a denormal shift of exactly 65 before the error bound was consulted (or the second test is gone): inputs just above half the smallest subnormal whose estimate falls just below it become 0 instead of going to the slow path" % (bad, n), where)
+
+
+def rule_quorem_correction(col, facts):
+    """CFG-quorem (big-integer one-digit division): the estimated quotient digit is corrected when the remainder
+    is *not less* than the divisor - equal included.  Correcting only when greater leaves remainder == divisor:
+    the digit is one too small and followed by (radix-1) digits for ever, which breaks exact ties in the
+    odd-radix slow path."""
+    if "radix" not in facts.config and not facts.config.startswith("compact"):
+        pass
+    R = "CFG-quorem"
+    f = facts.fn(PF + "bigint::large_quorem", required=False)
+    if f is None:
+        return
+    n = 0
+    ok = False
+    for i, b in enumerate(f.blocks):
+        if not f.live(i):
+            continue
+        # the block that bumps the quotient digit: `q = q + 1`
+        bump = False
+        for st in b["s"]:
+            if st[0] == "=" and st[2][0] == "bin" and st[2][1].startswith("Add"):
+                l, r = strip_casts(op_expr(f, st[2][2])), strip_casts(op_expr(f, st[2][3]))
+                if r == ("k", 1) and l[0] == "var" and len(l) > 2 and l[2] == "q":
+                    bump = True
+        if not bump:
+            continue
+        for _d, e, p in path_conditions(f, i):
+            pv = _promoted_variant(f, e, "cmp::Ordering")
+            if pv is None or not isinstance(p, bool) or "compare" not in show(e):
+                continue
+            n += 1
+            taken = {v for v in ("Less", "Equal", "Greater") if ((v == pv[0]) == (pv[1] == "eq")) == p}
+            ok = taken == {"Equal", "Greater"}
+    col.check(R, "large_quorem:correct-unless-less", n == 1 and ok,
+              "the quotient correction is not taken exactly when compare(x, y) != Less: a remainder equal to the divisor is left uncorrected (radix 3 `1121202011211211122211100012101120` = 2^53 + 1 rounds up instead of to even)", f.loc())
